@@ -233,18 +233,28 @@ def also6(pid, text):
     CLAIMS[pid] = (t, x + " ALSO DECIDED (mutation survey, third pass): " + text, r)
 
 WIRING = ("the client's start and close paths call by call (Stream.Open and the fatal membership subscription unconditional; health check, leader election, heart-beat and monitor "
-          "started and stopped under exactly their configuration switch, polarity included; Commit is Stream.Save; SetMetadata installs the supplied store; newDcp applies the defaults "
-          "before any other module call and returns every error)")
-also6("C02", "the sampled high sequence number is the largest any node/collection reported (all nodes 1..NumServers() asked, merge keeps the maximum).")
+          "started and stopped under exactly their configuration switch, polarity included; Commit is Stream.Save; SetMetadata installs the supplied store and Start installs the configured backend "
+          "only when none was supplied; newDcp applies the defaults before any other module call, connects / reads version and bucket / opens the DCP connection each exactly once, returns every "
+          "error and builds the client on the all-success path; the leader election starts its RPC server and elector and stops both)")
+also6("C02", "the sampled high sequence number is the largest any node/collection reported: GetVBucketSeqNos evaluated whole for 0..3 nodes × 1..2 collections × collection awareness × the failing step (requests ⊇ nodes × configured collection ids | one unfiltered; map ⇔ every step succeeded), the merge keeps the maximum; the backend and the requested end follow the documented values of metadata.type / dcp.mode (predicates evaluated exhaustively).")
+also6("C03", "the id→name table events are labelled from is exactly {id the server resolved for a configured name → that name} (GetCollectionIDs evaluated for 0..2 names × collection support × failing resolution); the user's listener/consumer reaches the stream unwrapped (simple consumer calls it once with the event it was given; every constructor hands it on; Start gives NewStream that field and the table resolved from the configured scope and names).")
 also6("C09", "GetInfo of every bus-fed membership returns the recorded numbering or waits for the first one (exhaustive).")
 also6("C10", "the Couchbase mechanism itself: constructor registers then starts heart-beat and monitor loops that call their worker on every iteration; isClusterChanged is exact "
       "(0..2 instances each, exhaustive over id equalities); a monitor round records live instances at their own index, skips missing documents, stops the client on any other error, "
       "then changed → updateIndex under the read CAS → rebalance(same list) | CAS mismatch → next round; registration and instance-document ladders step by step; a round parses only what it "
-      "read; GetInfo/first-announcement hand-over of every bus-fed membership (exhaustive).")
+      "read; GetInfo/first-announcement hand-over of every bus-fed membership (exhaustive), each listener subscribed unconditionally with a fatal failure. "
+      "The leader-assigned (kubernetesHa) mechanism: one monitor round for 0..2 followers (not leader ⇒ nothing; leader ⇒ SetInfo(1,n+1) and Rebalance(i+2,n+1) to the follower at "
+      "join-ordered position i through its own client, once each); one heart-beat round over every ping/reconnect/register outcome; the role callbacks and the state changers behind them; "
+      "the RPC table (constant Handler.M exists with exactly the payload/reply types sent; payloads carry the caller's numbers / identity; the handler announces exactly the payload's "
+      "numbers and registers a follower ⇔ the connection back succeeded); the RPC client's connect/close life cycle.")
 also6("C11", "the first numbering is handed to a waiting GetInfo iff nothing was recorded before (exhaustive, every bus-fed membership).")
 also6("C13", WIRING + ".")
-also6("C15", "the high sequence numbers the resume guard compares with are complete and maximal; " + WIRING + ".")
+also6("C15", "the high sequence numbers the resume guard compares with are complete and maximal (whole-function evaluation, see C02); the metadata-type switch reads the documented values; " + WIRING + ".")
 also6("C16", "lag is computed against the maximal high sequence number (the merge rule of C15).")
-also6("C17", "the defaults are applied first in newDcp (part of the wiring rule of C13).")
+also6("C17", "the defaults are applied first in newDcp (part of the wiring rule of C13); DOCUMENTED DEFAULTS: every row of README.md's option table with a non-zero default is compared with the value the defaulting code stores "
+      "into the field the key's yaml path denotes, under that field's zero test, in a step ApplyDefaults calls unconditionally (27 options; a default realised only where the option is read is accepted when every read falls back to the documented value); "
+      "an override that cannot be parsed is fatal on the edge on which the error is non-nil; the file backend's name is returned ⇔ configured and not empty.")
 also6("C19", "the checker is started iff HealthCheck.Disabled is false and stopped by close under the same switch (the wiring rule of C13).")
-also6("C20", "every fallible step around an operation (configuration snapshot, id resolution, dispatch, AsyncOp.Wait, errgroup Wait) has its error reported on every path on which it can be non-nil.")
+also6("C20", "every fallible step around an operation (configuration snapshot, id resolution, dispatch, AsyncOp.Wait, errgroup Wait) has its error reported on every path on which it can be non-nil (a use under err == nil is not a report); "
+      "WHOLE-WRAPPER EVALUATION: each of the 13 single-operation wrappers is evaluated with its buffered channels kept concretely over the fate of the operation (completed | refused at dispatch | completed with the server's error and nil results | never completed): "
+      "nil with the server's answer ⇔ completed without error, a non-nil error otherwise, never blocked on its result channel, never a nil result dereferenced.")
